@@ -138,9 +138,17 @@ class Built:
                 pass
 
 
-def real_encode(msg, cid, mx):
-    """(list of P_DATA yielded, exception class name | None)"""
+def real_encode(msg, cid, mx, observed=False):
+    """(list of P_DATA yielded, exception class name | None)
+    observed: between building the message and encoding it something has READ the message's data set - what a handler
+    bound to EVT_DIMSE_SENT may do (`DIMSEServiceProvider.send_msg` triggers that notification exactly there)"""
     out, err = [], None
+    if observed and getattr(msg, "data_set", None) is not None:
+        try:
+            msg.data_set.seek(0)
+            msg.data_set.read()
+        except Exception:  # noqa: BLE001
+            pass
     try:
         for p in msg.encode_msg(cid, mx):
             out.append(p)
@@ -195,15 +203,44 @@ def all_groupings(pdvs):
         yield groups
 
 
-def real_decode(groups, wire=False):
+class _CxStub:
+    """what decode_msg needs of an association when it receives a C-STORE data set into a file"""
+
+    def __init__(self):
+        from collections import defaultdict
+
+        from pydicom.uid import ImplicitVRLittleEndian
+
+        class _Cx:
+            transfer_syntax = [ImplicitVRLittleEndian]
+
+        self._accepted_cx = defaultdict(_Cx)
+
+
+def _file_dataset_bytes(path):
+    """the data-set bytes of a Part 10 file written by decode_msg (preamble, DICM, group 0002, then the data set)"""
+    raw = open(path, "rb").read()
+    if raw[128:132] != b"DICM" or raw[132:136] != b"\x02\x00\x00\x00":
+        return raw
+    n = int.from_bytes(raw[140:144], "little")
+    return raw[144 + n :]
+
+
+def real_decode(groups, wire=False, chunked=False):
     """feed groups of PDVs as P-DATA primitives to a fresh DIMSEMessage until decode_msg returns True.
     -> (canonical [outcome, remaining, encoded_command_set, data_set, context_id], message)"""
     from pynetdicom.dimse_messages import DIMSEMessage
     from pynetdicom.pdu import P_DATA_TF
     from pynetdicom.pdu_primitives import P_DATA
 
+    from pynetdicom import _config
+
     msg = DIMSEMessage()
     outcome, used = "more", 0
+    old_cfg = _config.STORE_RECV_CHUNKED_DATASET
+    stub = _CxStub() if chunked else None
+    if chunked:
+        _config.STORE_RECV_CHUNKED_DATASET = True
     for g in groups:
         prim = P_DATA()
         for c, k, payload in g:
@@ -217,14 +254,27 @@ def real_decode(groups, wire=False):
             prim = pdu2.to_primitive()
         used += 1
         try:
-            done = msg.decode_msg(prim)
+            done = msg.decode_msg(prim, stub) if chunked else msg.decode_msg(prim)
         except Exception:  # noqa: BLE001
             outcome = "error"
             break
         if done:
             outcome = "complete"
             break
+    _config.STORE_RECV_CHUNKED_DATASET = old_cfg
     ds = msg.data_set.getvalue() if msg.data_set is not None else b""
+    f = getattr(msg, "_data_set_file", None)
+    if chunked and f is not None:
+        import os
+
+        try:
+            f.close()
+            ds = _file_dataset_bytes(f.name)
+        finally:
+            try:
+                os.unlink(f.name)
+            except OSError:
+                pass
     return [outcome, len(groups) - used, msg.encoded_command_set.getvalue(), ds, msg.context_id], msg
 
 
